@@ -10,6 +10,7 @@ mod c12;
 mod c15;
 mod c16;
 mod c18;
+mod c19;
 mod c20;
 mod cek;
 mod driver;
@@ -77,6 +78,7 @@ fn main() {
         "c12-probe" => c12::probe(&ctx),
         "c12-corr" => c12::corr(&ctx),
         "c18-apply" => c18::apply(&ctx),
+        "c19-tx" => c19::run(&ctx),
         other => {
             eprintln!("unknown sub-command {other}");
             std::process::exit(2);
